@@ -42,7 +42,7 @@ def plan(tier):
 def required(tier):
     return [f"sub:{s}" for s in SUBS] + ["bgzf_multi_block_configs", "lines_crossing_block_boundary", "gz_graph_configs",
                                          "index_offsets_resolved", "gsi_offsets_resolved", "text_variant_crlf", "text_variant_utf8",
-                                         "gz_graph_multi_member", "gz_graph_single_member"]
+                                         "gz_graph_multi_member", "gz_graph_single_member", "records_ending_on_64k_boundary"]
 
 
 def setup(ctx):
@@ -76,6 +76,36 @@ def text_variant(lines, rng, sit):
     if kind in ("crlf", "both"):
         lines = [l + "\r" for l in lines]
         sit["text_variant_crlf"] += 1
+    return lines
+
+
+def align_to_64k(lines, rng, sit):
+    """adversarial layout: pad records so that a (non-final) record ends exactly at an uncompressed
+    offset k * 65536 - the chunk size at which BGZF data is inflated"""
+    if rng.random() >= 0.5:
+        return lines
+    lines = list(lines)
+    cum = 0
+    boundary = 65536
+    i = 0
+    while i < len(lines):
+        ln = len(lines[i].encode()) + 1
+        if cum < boundary < cum + ln and i > 0:
+            gap = boundary - cum
+            cr = lines[i - 1].endswith("\r")
+            body = lines[i - 1][:-1] if cr else lines[i - 1]
+            if gap >= 7:
+                lines[i - 1] = body + "\tzp:Z:" + "p" * (gap - 6) + ("\r" if cr else "")
+                cum += gap
+                sit["records_ending_on_64k_boundary"] += 1
+            boundary += 65536
+            continue
+        if cum + ln == boundary:
+            sit["records_ending_on_64k_boundary"] += 1
+        if cum + ln >= boundary:
+            boundary += 65536 * ((cum + ln - boundary) // 65536 + 1)
+        cum += ln
+        i += 1
     return lines
 
 
@@ -149,7 +179,7 @@ def run_case(ctx, rng, index, casedir):
         stable = sub != "view_format" and rng.random() < 0.5
         if stable:
             lines = [rgaf.ref_to_stable(g, l) for l in lines]
-        lines = text_variant(lines, rng, sit)
+        lines = align_to_64k(text_variant(lines, rng, sit), rng, sit)
         cfgs = write_configs(casedir, lines, lambda p: g.write(p, rng=rng), rng, sit)
         coords = rgaf.Coords(g)
         if sub == "view_format":
@@ -232,7 +262,7 @@ def run_case(ctx, rng, index, casedir):
             all_equal(res, viol, "phased records", sub)
     elif sub == "sort":
         w = SC.build(rng, casedir, index, nrec=nrec, mode="plain", text_variants=False)
-        w.lines = text_variant(w.lines, rng, sit)
+        w.lines = align_to_64k(text_variant(w.lines, rng, sit), rng, sit)
         cfgs = write_configs(casedir, w.lines, lambda p: w.g.write(p, bo_no=w.tags, rng=rng), rng, sit)
         res, idxres = [], []
         for label, gaf, gfa in cfgs:
@@ -258,7 +288,7 @@ def run_case(ctx, rng, index, casedir):
     elif sub == "stat":
         lines = c19.synth(rng, nrec, collections.Counter())
         lines.append("readP\t10\t0\t10\t+\t>s1\t10\t0\t10\t10\t10\t60\ttp:A:P\tcg:Z:10=")
-        lines = text_variant(lines, rng, sit)
+        lines = align_to_64k(text_variant(lines, rng, sit), rng, sit)
         cfgs = write_configs(casedir, lines, None, rng, sit)
         res = []
         for label, gaf, _ in cfgs:
@@ -270,7 +300,7 @@ def run_case(ctx, rng, index, casedir):
     elif sub == "realign":
         from vf import realign_run as RR
         w = RR.make_workload(rng, casedir, min(nrec, 900), read_len=(20, 120))
-        w.lines = text_variant(w.lines, rng, sit)
+        w.lines = align_to_64k(text_variant(w.lines, rng, sit), rng, sit)
         cfgs = write_configs(casedir, w.lines, lambda p: w.g.write(p, rng=rng), rng, sit)
         res = []
         for label, gaf, gfa in cfgs:
